@@ -349,6 +349,39 @@ Section Iter.
     | None => acc
     end.
 
+  (* Iter::fold_n: N accumulators updated together by [f]; after the padded tail every accumulator keeps its
+     old value in the lanes that the mask excludes *)
+  Definition iter_fold_n (f : list (list E) -> list E -> list (list E)) (accs : list (list E)) (xs : list E)
+    : list (list E) :=
+    let '(cs, r) := iter_chunks xs in
+    let accs := fold_left f cs accs in
+    match iter_tail r with
+    | Some (t, m) => map (fun p : list E * list E => vselect m (fst p) (snd p)) (combine (f accs t) accs)
+    | None => accs
+    end.
+
+  (* Iter::fold_n_unroll::<N, UNROLL>: as fold_unroll with lists of accumulators, finishing through fold_n *)
+  Fixpoint blocks_n (fuel u : nat) (xs : list E) (accss : list (list (list E)))
+           (f : list (list E) -> list E -> list (list E)) : list (list (list E)) * list E :=
+    match fuel with
+    | O => (accss, xs)
+    | S fu =>
+        if Nat.leb (lanes * u) (length xs) && Nat.ltb 0 (lanes * u) then
+          let blk := firstn (lanes * u) xs in
+          let vs := fst (chunks (S u) blk) in
+          blocks_n fu u (skipn (lanes * u) xs)
+                   (map (fun p : list (list E) * list E => f (fst p) (snd p)) (combine accss vs)) f
+        else (accss, xs)
+    end.
+  Definition iter_fold_n_unroll (u : nat) (f : list (list E) -> list E -> list (list E))
+             (facc : list (list E) -> list (list E) -> list (list E)) (accs : list (list E)) (xs : list E)
+    : list (list E) :=
+    let '(accss, r) := blocks_n (S (length xs)) u xs (repeat accs u) f in
+    match accss with
+    | [] => iter_fold_n f accs r
+    | a0 :: rest => iter_fold_n f (fold_left facc rest a0) r
+    end.
+
   (* Iter::fold_unroll::<UNROLL>: UNROLL accumulators (each starting from [acc]) over blocks of
      UNROLL vectors, combined with [facc], then [iter_fold] on what is left *)
   Fixpoint blocks (fuel u : nat) (xs : list E) (accs : list (list E)) (f : list E -> list E -> list E)
@@ -379,6 +412,17 @@ Definition vop (ty opk : N) (v : list Z) : list Z :=
   end.
 Definition vadd (ty : N) (a b : list Z) : list Z := map (fun p => wrap ty (fst p + snd p)) (combine a b).
 Definition vmax (a b : list Z) : list Z := map (fun p => Z.max (fst p) (snd p)) (combine a b).
+Definition vmin (a b : list Z) : list Z := map (fun p => Z.min (fst p) (snd p)) (combine a b).
+(* the three accumulators the harness folds together: wrapping sum, min, max *)
+(* accumulator i is updated by the i-th vector function *)
+Definition cwv {E} (fs : list (list E -> list E -> list E)) (accs : list (list E)) (x : list E) : list (list E) :=
+  map (fun p : (list E -> list E -> list E) * list E => fst p (snd p) x) (combine fs accs).
+Definition f3 (ty : N) : list (list Z) -> list Z -> list (list Z) := cwv [vadd ty; vmin; vmax].
+Definition g3 (ty : N) (a b : list (list Z)) : list (list Z) :=
+  match a, b with
+  | [s; mn; mx], [s2; mn2; mx2] => [vadd ty s s2; vmin mn mn2; vmax mx mx2]
+  | _, _ => a
+  end.
 
 Definition out_list (o : outcome (list Z)) : list Z :=
   match o with Done l => l | Fault i => [-1; Z.of_nat i] | OutOfFuel => [-2] end.
@@ -390,6 +434,9 @@ Definition out_list (o : outcome (list Z)) : list Z :=
    7 fold_n::<2> (add, max)        8 fold_n_unroll::<2, unroll>
    where c = 5 is the initial accumulator value used by the harness *)
 Definition acc0 : Z := 5.
+(* initial accumulators of the min / max folds: not zero, so that a padded lane entering the fold shows *)
+Definition acc_min : Z := 120.
+Definition acc_max (ty : N) : Z := if ((ty =? 1) || (ty =? 3))%N then 3 else -120.
 
 Definition model_slice (ty fn unroll opk : N) (lanes : nat) (xs : list Z) : list Z :=
   let u := N.to_nat unroll in
@@ -401,10 +448,15 @@ Definition model_slice (ty fn unroll opk : N) (lanes : nat) (xs : list Z) : list
            concat cs ++ match iter_tail 0 lanes r with Some (t, m) => t ++ bz m | None => [] end
   | 4%N => concat (iter_pad 0 lanes xs)
   | 5%N => iter_fold 0 lanes (vadd ty) (repeat acc0 lanes) xs
+           ++ iter_fold 0 lanes vmin (repeat acc_min lanes) xs
+           ++ iter_fold 0 lanes vmax (repeat (acc_max ty) lanes) xs
   | 6%N => iter_fold_unroll 0 lanes u (vadd ty) (vadd ty) (repeat acc0 lanes) xs
-  | 7%N => iter_fold 0 lanes (vadd ty) (repeat acc0 lanes) xs ++ iter_fold 0 lanes vmax (repeat acc0 lanes) xs
-  | 8%N => iter_fold_unroll 0 lanes u (vadd ty) (vadd ty) (repeat acc0 lanes) xs
-           ++ iter_fold_unroll 0 lanes u vmax vmax (repeat acc0 lanes) xs
+           ++ iter_fold_unroll 0 lanes u vmin vmin (repeat acc_min lanes) xs
+           ++ iter_fold_unroll 0 lanes u vmax vmax (repeat (acc_max ty) lanes) xs
+  | 7%N => concat (iter_fold_n 0 lanes (f3 ty)
+                     [repeat acc0 lanes; repeat acc_min lanes; repeat (acc_max ty) lanes] xs)
+  | 8%N => concat (iter_fold_n_unroll 0 lanes u (f3 ty) (g3 ty)
+                     [repeat acc0 lanes; repeat acc_min lanes; repeat (acc_max ty) lanes] xs)
   | _ => []
   end.
 
@@ -416,6 +468,8 @@ Fixpoint every_nth (lanes j : nat) (i : nat) (xs : list Z) : list Z :=   (* elem
   end.
 Definition lane_sums (ty : N) (lanes : nat) (init : Z) (xs : list Z) : list Z :=
   map (fun j => wsum ty init (every_nth lanes j 0 xs)) (seq 0 lanes).
+Definition lane_mins (lanes : nat) (init : Z) (xs : list Z) : list Z :=
+  map (fun j => fold_left Z.min (every_nth lanes j 0 xs) init) (seq 0 lanes).
 Definition lane_maxs (lanes : nat) (init : Z) (xs : list Z) : list Z :=
   map (fun j => fold_left Z.max (every_nth lanes j 0 xs) init) (seq 0 lanes).
 (* reversal inside each full vector; the padded tail vector reversed then cut to the slice *)
@@ -443,11 +497,22 @@ Definition spec_slice (ty fn unroll opk : N) (lanes : nat) (xs : list Z) : list 
   | 4%N => let full := (length xs / lanes * lanes)%nat in
            let r := skipn full xs in
            firstn full xs ++ match r with [] => [] | _ => zpad lanes r end
-  | 5%N => lane_sums ty lanes acc0 xs
-  | 6%N => lane_sums ty lanes (wrap ty (u * acc0)) xs
-  | 7%N => lane_sums ty lanes acc0 xs ++ lane_maxs lanes acc0 xs
-  | 8%N => lane_sums ty lanes (wrap ty (u * acc0)) xs ++ lane_maxs lanes acc0 xs
+  | 5%N | 7%N => lane_sums ty lanes acc0 xs ++ lane_mins lanes acc_min xs ++ lane_maxs lanes (acc_max ty) xs
+  | 6%N | 8%N => lane_sums ty lanes (wrap ty (u * acc0)) xs ++ lane_mins lanes acc_min xs ++ lane_maxs lanes (acc_max ty) xs
   | _ => []
+  end.
+
+(* rten-vecmath reducers (harness/simd/src/reducers.rs): the scalar fold over EXACTLY the slice elements.
+   Infinities (results for the empty slice) are encoded as +-2^40. *)
+Definition inf_code : Z := 2 ^ 40.
+Definition reduce_spec (red : N) (xs : list Z) : list Z :=
+  match red with
+  | 0%N => [fold_left Z.min xs inf_code; fold_left Z.max xs (- inf_code)]     (* MinMax *)
+  | 1%N => [fold_left Z.add xs 0]                                             (* Sum *)
+  | 2%N => [fold_left (fun s x => s + x * x) xs 0]                            (* SumSquare *)
+  | 3%N => [fold_left Z.max xs (- inf_code)]                                  (* MaxNum *)
+  | 4%N => [fold_left Z.min xs inf_code]                                      (* MinNum *)
+  | _ => [0]                                   (* softmax of a constant vector: no output differs from 1/len *)
   end.
 
 (* ------------------------------------------------------------------ Part 3: cases *)
@@ -470,7 +535,10 @@ Inductive case :=
 | CSlice (ty fn unroll opk : N) (lanes : nat) (xs : list Z) (out : list Z) (fault : bool)
 | CSliceSweep (ty fn unroll opk : N) (lanes : nat) (count : N) (bad : option N)
   (* a vectorised rten-vecmath operation evaluated on every ISA: (uses_fma, bits) per ISA *)
-| CVm (fn : N) (x : Z) (rs : list (bool * Z)).
+| CVm (fn : N) (x : Z) (rs : list (bool * Z))
+  (* a rten-vecmath reducer on small-integer data: result on every ISA *)
+| CReduce (red : N) (xs : list Z) (rs : list (list Z))
+| CReduceSweep (red family count : N) (bad : option N).
 
 Definition prim_ok (ty op k : N) (x y z : Z) (rs : list Z) : bool :=
   negb (match rs with [] => true | _ => false end) && forallb (Z.eqb (lane_op ty op k x y z)) rs.
@@ -518,6 +586,10 @@ Definition prop_ok (c : case) : bool :=
   | CSliceSweep _ _ _ _ _ _ None => true
   | CSliceSweep _ _ _ _ _ _ (Some _) => false
   | CVm _ _ rs => vm_ok rs
+  | CReduce red xs rs =>
+      negb (match rs with [] => true | _ => false end) && forallb (fun r => list_eqb r (reduce_spec red xs)) rs
+  | CReduceSweep _ _ _ None => true
+  | CReduceSweep _ _ _ (Some _) => false
   end.
 
 Definition agree (c : case) : bool :=
@@ -538,5 +610,6 @@ Definition show (c : case) : list Z :=
   | CVec ty v lanes a b _ => vec_op ty v lanes a b
   | CFlt op x y z _ _ _ => match flt_def op x y z with Some d => [d] | None => [] end
   | CSlice ty fn unroll opk lanes xs _ _ => model_slice ty fn unroll opk lanes xs
+  | CReduce red xs _ => reduce_spec red xs
   | _ => []
   end.
